@@ -10,7 +10,7 @@ import json,sys
 idx=json.load(open('mutants/INDEX.json'))
 only=sys.argv[1]
 for name,m in sorted(idx.items()):
-    if m.get('status')!='compiles-and-passes-tests': continue
+    if m.get('status')!='compiles-and-passes-tests' or name.startswith('benign'): continue
     if only and only not in name and only not in m['owners']: continue
     print(name, ",".join(m['owners']))
 PY
